@@ -408,6 +408,8 @@ def compute_domains_gcc(domains: NDArray, parameters: NDArray) -> int:
     the first domain value (v_0), then the m lower bounds, then the m upper bounds (capacities)
     """
     m = (len(parameters) - 1) // 2  # number of values
+    if np.any(parameters[1 : 1 + m] > parameters[1 + m :]):
+        return PROP_INCONSISTENCY  # a value cannot be taken at least l_j times and at most c_j < l_j times
     values = np.nonzero(parameters[1 + m :])[0]  # the values (relative to v_0) with a non-null capacity
     if len(values) == m:
         return filter_gcc(domains, parameters)
